@@ -6,10 +6,10 @@ Require Import FV.C15.Model.
 
 Definition plain (export : bool) (atts : list att) (writes : list nat) : decl :=
   {| d_kind := KPlain; d_tag := 0; d_export := export; d_atts := atts; d_poll := true; d_writes := writes;
-     d_fail_early := false; d_fail_init := false; d_hang := false |}.
+     d_fail_early := false; d_fail_init := false; d_hang := false; d_cfail := CFNone |}.
 Definition pinata (atts : list att) (scan : list name) : decl :=
   {| d_kind := KPinata scan; d_tag := 0; d_export := false; d_atts := atts; d_poll := true; d_writes := [];
-     d_fail_early := false; d_fail_init := false; d_hang := false |}.
+     d_fail_early := false; d_fail_init := false; d_hang := false; d_cfail := CFNone |}.
 Definition to (t : name) : att := {| a_target := Some t; a_mand := true; a_want := None; a_phase := PInit |}.
 
 (* finding C15/pinata-created-through-attachment-not-scanned: the same two Pinata modules in both declaration
@@ -29,4 +29,31 @@ Proof.
   exists (cfg_pinata true), (cfg_pinata false). split.
   - intros x; simpl; tauto.
   - vm_compute. repeat split; reflexivity.
+Qed.
+
+(* finding C15/later-modules-skipped-after-comm-failure: modules 0 and 1 share the communicator 100 (uri 0), so the
+   poll thread of 100 serves [100; 0; 1]; initialReads of module 0 raises CommunicationFailedError.  Module 1 has the
+   configured value x0.  Under the schedule below the node reports ready, the trace contains doPoll of module 1
+   and never a write of module 1 - and the program of the thread does not contain that write at all. *)
+Definition hasio (u : nat) (writes : list nat) (f : cfault) : decl :=
+  {| d_kind := KHasIO (IoUri u); d_tag := 0; d_export := true; d_atts := []; d_poll := true; d_writes := writes;
+     d_fail_early := false; d_fail_init := false; d_hang := false; d_cfail := f |}.
+Definition cfg_comm : cfg :=
+  {| c_static := [(0, hasio 0 [] CFIReads); (1, hasio 0 [0] CFNone)]; c_dyn := [] |}.
+Definition sched_comm : list sitem :=
+  [SMain; SMain; SMain; SThread 100; SThread 100; SThread 100; SThread 100; SThread 100; SThread 100; SThread 100;
+   SMain].
+
+Theorem C15_refuted_writes_before_first_poll_after_comm_failure :
+  exists c sched t m k,
+    let st := initialised 40 2000 c in
+    let s := started 40 2000 c sched in
+    errors st = [] /\ In m (polled_of st t) /\ In k (d_writes (decl_of st m)) /\
+    In (EDoPoll m) (thread_prog st t) /\ ~ In (EWrite m k) (thread_prog st t) /\
+    s_pc s = MRun /\ In (EReady true) (trace (s_node s)) /\
+    In (EDoPoll m) (trace (s_node s)) /\ ~ In (EWrite m k) (trace (s_node s)).
+Proof.
+  exists cfg_comm, sched_comm, 100, 1, 0. vm_compute.
+  repeat split; auto 20;
+    try (intros H; repeat (destruct H as [H|H]; [discriminate|]); exact H).
 Qed.
